@@ -182,6 +182,20 @@ func coqErrorMap(m gocql.ErrorMap) string {
 	return hlib.List(items)
 }
 
+// ErrView: an error a caller received, as the model's FError term (code, message, code-specific fields) --
+// everything but the frame header embedded in the value; "nil" for no error, the Go type and text for an
+// error that is not a server error.
+func ErrView(e error) string {
+	if e == nil {
+		return "nil"
+	}
+	re, ok := e.(gocql.RequestError)
+	if !ok {
+		return fmt.Sprintf("(not a server error: %T %q)", e, e.Error())
+	}
+	return fmt.Sprintf("(FError %s %s %s)", hlib.Z(int64(re.Code())), CoqStr(re.Message()), coqErrDetail(e))
+}
+
 func coqErrDetail(e error) string {
 	z := func(v int) string { return hlib.Z(int64(v)) }
 	switch x := e.(type) {
